@@ -657,6 +657,7 @@ class PoolLoad(C02Graph):
         s.idx = z3.Int('batch_index')
         vc.fin_bounds.append(s.idx)
         s.pool = _Pool(th, vc) if self.case == 'pool' else None
+        s.RS = name_const(th, RS_NAME)
         s.context = _Context(SInt(z3.Int('seed')), {'executor': {}}, pool=s.pool)
         return s, (None, s.context, s.G, SInt(s.idx)), {}
 
@@ -705,6 +706,9 @@ class PoolLoad(C02Graph):
              th.forall_nodes(lambda x: z3.Implies(z3.And(stored(x), has_op(th, g0, h1, x)), is_output(th, g0, h1, x)))),
             ('requested outputs only grow, by stored nodes that are missing from the batch',
              th.forall_nodes(lambda x: is_output(th, g0, h1, x) == z3.Or(is_output(th, g0, h0, x), z3.And(stored(x), z3.Not(inb(x)))))),
+            ('pure reuse: no STOCHASTIC node is replaced by its stored output while another stochastic node still has to run (the operations that run '
+             'are handed the generator at stream position 0, not behind the draws the loaded node took when the batch was first computed)',
+             th.forall_nodes(lambda x, y: z3.Not(z3.And(stored(x), inb(x), g0.edge(s.RS, x), g0.node(y), y != x, g0.edge(s.RS, y), has_op(th, g0, h1, y))), 2)),
             ('nodes the pool does not manage keep their data dicts',
              th.forall_nodes(lambda x: z3.Implies(z3.And(g0.node(x), z3.Not(p.st(x))),
                                                   th.forall_keys(lambda k: z3.And(h1.has(g0.nattr(x), k) == h0.has(g0.nattr(x), k), h1.val(g0.nattr(x), k) == h0.val(g0.nattr(x), k))))))]
